@@ -5,3 +5,5 @@ import Props.C18
 #print axioms C18.removal_preserves_env
 #print axioms C18.shadowed_import_removable
 #print axioms C18.import_rewrite_check_sound
+#print axioms C18.star_expansion_keeps_bindings
+#print axioms C18.star_expansion_old_drops_shadowing_name
